@@ -6,11 +6,17 @@ Per primitive: exhaustive TLC on the fine-grained model (safety + liveness under
 sequential replay of TLC-simulated call sequences on the real object inside a testing/synctest
 bubble (fake clock; quiescence = every goroutine durably blocked, so "blocked for ever" is decided,
 never timed out), concurrent rounds with real goroutines validated by TLC against trace specs with
-silent linearisation steps and by monitors that are the specs' invariants, retained-result and
-goroutine-leak checks. Run with ./check G06; evidence in evidence/G06.json; not in MANIFEST.json."""
+silent linearisation steps and/or by monitors that are the specs' invariants, retained-result and
+goroutine-leak checks. Run with ./check G06; evidence in evidence/G06.json; not in MANIFEST.json.
+
+VERIF_G06_ONLY=broadcast,retry restricts a run to some primitives (development aid)."""
 import json
 import os
+from concurrent.futures import ThreadPoolExecutor
+
 import vlib
+
+K_STAGE_LEAK = "stages:stage-blocked-on-send-after-cancel"
 
 
 def _cfg(consts, init, nxt, extra=""):
@@ -18,6 +24,64 @@ def _cfg(consts, init, nxt, extra=""):
         " ".join("%s = %s" % kv for kv in consts.items()), init, nxt, extra)
 
 
+# ------------------------------------------------------------------------------------ TLC phase
+def tlc_plan(thorough):
+    """(primitive, module, cfg, label, expect) — expect: None = must hold; else the violation the
+    run must end with (design as coded / stated observation)."""
+    t = thorough
+    return [
+        ("broadcast", "Broadcast.tla", "Broadcast_quick.cfg", "Broadcast safety cap=2 subs=2 sends=5", None),
+        ("broadcast", "Broadcast.tla", "Broadcast_live.cfg" if t else "Broadcast_live_quick.cfg", "Broadcast liveness (fair)", None),
+        ("broadcast", "Broadcast.tla", "Broadcast_cap1.cfg", "Broadcast safety cap=1 (degenerate ring)", None),
+    ] + ([("broadcast", "Broadcast.tla", "Broadcast_cap4.cfg", "Broadcast safety cap=4", None)] if t else []) + [
+        ("throttler", "Throttler.tla", "Throttler_thorough.cfg" if t else "Throttler_quick.cfg", "Throttler safety+deadlock n=2 q=1", None),
+        ("throttler", "Throttler.tla", "Throttler_zeroq_thorough.cfg" if t else "Throttler_zeroq.cfg", "Throttler safety+deadlock n=1 q=0", None),
+        ("throttler", "Throttler.tla", "Throttler_live.cfg" if t else "Throttler_live_quick.cfg", "Throttler liveness (fair)", None),
+        ("throttler", "Throttler.tla", "Throttler_obs.cfg", "Throttler observation: QueueLen() can be negative (two unsynchronised reads)", "QueueLenNonNegative"),
+        ("throttler", "Throttler.tla", "Throttler_obs2.cfg", "Throttler observation: a call can be rejected while fewer than N+Q accepted calls exist", "StrictAdmission"),
+        ("semaphore", "Semaphore.tla", "Semaphore_quick.cfg", "Semaphore safety size=2", None),
+        ("semaphore", "Semaphore.tla", "Semaphore_size1.cfg", "Semaphore safety size=1", None),
+        ("semaphore", "Semaphore.tla", "Semaphore_live.cfg", "Semaphore liveness (fair)", None),
+        ("retry", "MCRetry.tla", "Retry_quick.cfg", "Retry safety exponential backoff", None),
+        ("retry", "MCRetry.tla", "Retry_nop.cfg", "Retry safety NopBackoff", None),
+        ("retry", "MCRetry.tla", "Retry_zero.cfg", "Retry safety maxRetries=0, minWait>maxWait", None),
+        ("retry", "MCRetry.tla", "Retry_live.cfg", "Retry liveness (fair)", None),
+        ("pipeline", "Pipeline.tla", "Pipeline_thorough.cfg" if t else "Pipeline_quick.cfg", "Pipeline safety+deadlock 2 stages x 2 workers", None),
+        ("pipeline", "Pipeline.tla", "Pipeline_k3.cfg", "Pipeline safety+deadlock 3 stages x 1 worker", None),
+        ("pipeline", "Pipeline.tla", "Pipeline_live.cfg", "Pipeline liveness (fair)", None),
+        ("stages", "Stages.tla", "Stages_thorough.cfg" if t else "Stages_quick.cfg", "Stages (Stage+FanIn, repaired) safety+deadlock", None),
+        ("stages", "Stages.tla", "Stages_live.cfg", "Stages (repaired) liveness", None),
+        ("stages", "Stages.tla", "Stages_bridge_live.cfg", "Stages (Bridge) safety+liveness", None),
+        ("stages", "Stages.tla", "Stages_ascoded.cfg", "Stages as coded: a Stage blocked for ever after cancellation", "deadlock"),
+        ("stages", "Stages.tla", "Stages_live_ascoded.cfg", "Stages as coded: EverythingEnds", "temporal"),
+    ]
+
+
+def tlc_phase(ctx, only):
+    plan = [p for p in tlc_plan(not ctx.quick()) if p[0] in only]
+    par = max(1, min(4, int(os.environ.get("VERIF_G06_TLC_PAR", "3"))))
+    workers = max(2, int(os.environ.get("VERIF_TLC_WORKERS", "16")) // par)
+
+    def one(p):
+        _, module, cfg, label, expect = p
+        r = ctx.tlc_check("prims", module, cfg, workers=workers, timeout=3000, label=label,
+                          expect_violation=expect is not None, coverage=cfg in ("Throttler_thorough.cfg", "Pipeline_thorough.cfg"))
+        return p, r
+
+    with ThreadPoolExecutor(max_workers=par) as ex:
+        results = list(ex.map(one, plan))
+    for (prim, module, cfg, label, expect), r in results:
+        if expect is None:
+            if "coverage" in r:
+                vlib.require_actions_covered(r, ignore=("ObsReadCnt", "ObsReadSem", "Finished"))
+            continue
+        if r["ok"] or r["violated"] != expect:
+            raise vlib.Broken("expected-violation run %s/%s: expected %s, got %s — the model changed" % (module, cfg, expect, r["violated"]))
+        if prim == "throttler":
+            print("OBSERVATION property=G06 (TLC, design level, not reproduced on the code, not a verdict): %s" % label, flush=True)
+
+
+# ------------------------------------------------------------------------------------ helpers
 def validate_trace(ctx, module, cfg, tracefile, rinfo, prop_key, engine_test, files=None, timeout=900):
     """TLC decides whether the recorded rounds are behaviours of the trace spec. A rejected round is
     reported (replayable: the recorded lines themselves) and dropped; the rest is validated again."""
@@ -57,126 +121,104 @@ def validate_trace(ctx, module, cfg, tracefile, rinfo, prop_key, engine_test, fi
         if not lines:
             break
     ctx.traces_validated += accepted
-    ctx.coverage[prop_key + "_concurrent_rounds_validated_by_tlc"] = ctx.coverage.get(prop_key + "_concurrent_rounds_validated_by_tlc", 0) + accepted
+    k = prop_key + "_concurrent_rounds_validated_by_tlc"
+    ctx.coverage[k] = ctx.coverage.get(k, 0) + accepted
     if lines and len(ctx.samples) < 6:
         ctx.samples.append({prop_key + "_trace_excerpt": [json.loads(x) for x in lines[:10]]})
+
+
+def absorb(ctx, res, test):
+    """As ctx.absorb, but the engine's `rounds` bookkeeping stays out of the evidence."""
+    res = dict(res)
+    res["stats"] = {k: v for k, v in (res.get("stats") or {}).items() if k not in ("rounds",)}
+    ctx.absorb(res, "prims", test)
 
 
 def diverged(ctx, before, name):
     """The sequential replay already showed the real primitive diverging from its specification:
     hammering a divergent primitive concurrently adds nothing and may hang the harness (which would
     turn a verdict into BROKEN), so the concurrent rounds of that primitive are skipped."""
-    if len(ctx.violations) + len(ctx.known_hits) > before:
+    if any(v["key"].startswith((name, "crash:")) for v in ctx.violations):
         vlib.log("%s: replay diverged; concurrent rounds skipped" % name)
         ctx.coverage[name + "_concurrent_skipped_after_divergence"] = 1
         return True
     return False
 
 
-# ------------------------------------------------------------------------------- broadcast
+def simulate(ctx, module, consts, depth, seed_base, runs, extra_cfg=None):
+    cfg = extra_cfg or _cfg(consts, "MBTInit", "MBTNext")
+    beh = []
+    for j in range(runs):
+        beh += ctx.tlc_simulate("prims", module, "simgen.cfg", depth=depth, seed=ctx.seed * 1000 + seed_base + j, files={"simgen.cfg": cfg})
+    return beh
+
+
+# ------------------------------------------------------------------------------------ bindings
 def broadcast(ctx, binary):
     thorough = not ctx.quick()
-    ctx.tlc_check("prims", "Broadcast.tla", "Broadcast_quick.cfg", timeout=1200, label="Broadcast safety cap=2 subs=2 sends=5")
-    ctx.tlc_check("prims", "Broadcast.tla", "Broadcast_live.cfg" if thorough else "Broadcast_live_quick.cfg",
-                  timeout=2400, label="Broadcast liveness (fair)")
-    if thorough:
-        ctx.tlc_check("prims", "Broadcast.tla", "Broadcast_cap1.cfg", timeout=1200, label="Broadcast safety cap=1")
-        ctx.tlc_check("prims", "Broadcast.tla", "Broadcast_cap4.cfg", timeout=2400, label="Broadcast safety cap=4")
-    # replay: requested capacity -> actual capacity (rounded up to a power of two)
+    nv = len(ctx.violations)
+    # requested capacity -> actual capacity (New rounds up to a power of two)
     shapes = [(2, 2), (0, 1), (3, 4)] if not thorough else [(2, 2), (0, 1), (1, 1), (3, 4), (4, 4)]
-    nb, nv = 0, len(ctx.violations) + len(ctx.known_hits)
+    nb = 0
     for i, (req, cap) in enumerate(shapes):
-        cfg = _cfg({"Cap": cap, "NSubs": 3, "MaxSends": 60, "NProd": 1, "MaxSteps": 45}, "MBTInit", "MBTNext")
-        beh = []
-        for j in range(3 if thorough else 1):
-            beh += ctx.tlc_simulate("prims", "BroadcastMBT.tla", "Broadcast_simgen.cfg", depth=(40000 if thorough else 12000),
-                                    seed=ctx.seed * 1000 + i * 10 + j, files={"Broadcast_simgen.cfg": cfg})
+        beh = simulate(ctx, "BroadcastMBT.tla", {"Cap": cap, "NSubs": 3, "MaxSends": 60, "NProd": 1, "MaxSteps": 45},
+                       40000 if thorough else 12000, i * 10, 3 if thorough else 1)
         nb += len(beh)
-        res = ctx.run_engine(binary, "TestBroadcastReplay", {"cap": req, "speccap": cap, "behaviours": beh})
-        ctx.absorb(res, "prims", "TestBroadcastReplay")
+        absorb(ctx, ctx.run_engine(binary, "TestBroadcastReplay", {"cap": req, "speccap": cap, "behaviours": beh}), "TestBroadcastReplay")
     ctx.coverage["broadcast_behaviours_replayed"] = nb
     if diverged(ctx, nv, "broadcast"):
         return
     tf = os.path.join(ctx.scratch, "bcast.ndjson")
     res = ctx.run_engine(binary, "TestBroadcastConcurrent",
-                         {"out": tf, "trace_rounds": 40 if thorough else 12, "monitor_rounds": 400 if thorough else 60, "cap": 2},
-                         timeout=1500)
-    ctx.absorb(res, "prims", "TestBroadcastConcurrent")
+                         {"out": tf, "trace_rounds": 40 if thorough else 12, "monitor_rounds": 6000 if thorough else 1000, "cap": 2}, timeout=1500)
+    absorb(ctx, res, "TestBroadcastConcurrent")
     validate_trace(ctx, "BroadcastTrace.tla", "BroadcastTrace.cfg", tf, res["stats"]["rounds"], "broadcast", "TestBroadcastConcurrent")
 
 
-# ------------------------------------------------------------------------------- throttler
 def throttler(ctx, binary):
     thorough = not ctx.quick()
-    r = ctx.tlc_check("prims", "Throttler.tla", "Throttler_thorough.cfg" if thorough else "Throttler_quick.cfg", timeout=2400,
-                      coverage=thorough, label="Throttler safety+deadlock n=2 q=1")
-    if thorough:
-        vlib.require_actions_covered(r, ignore=("ObsReadCnt", "ObsReadSem"))
-    ctx.tlc_check("prims", "Throttler.tla", "Throttler_zeroq_thorough.cfg" if thorough else "Throttler_zeroq.cfg", timeout=1200, label="Throttler safety+deadlock n=1 q=0")
-    ctx.tlc_check("prims", "Throttler.tla", "Throttler_live.cfg", timeout=1200, label="Throttler liveness (fair)")
-    # design-level observations about the code as it is: expected violations, never a verdict
-    for cfg, what in (("Throttler_obs.cfg", "QueueLen() can be negative (two unsynchronised reads)"),
-                      ("Throttler_obs2.cfg", "a call can be rejected while fewer than N+Q accepted calls exist (calls being rejected are counted)")):
-        r = ctx.tlc_check("prims", "Throttler.tla", cfg, timeout=600, expect_violation=True, label="Throttler observation " + cfg)
-        if r["ok"]:
-            raise vlib.Broken("expected-violation run %s no longer violates: the model changed" % cfg)
-        print("OBSERVATION property=G06 (TLC, design level, not a verdict): throttler: %s" % what, flush=True)
-    nv = len(ctx.violations) + len(ctx.known_hits)
+    nv = len(ctx.violations)
     nb = 0
     shapes = [(2, 2), (1, 0), (1, 1)] if not thorough else [(2, 2), (1, 0), (1, 1), (3, 1), (2, 0)]
     for i, (n, q) in enumerate(shapes):
-        cfg = _cfg({"N": n, "Q": q, "NCalls": 12, "WithObs": "FALSE", "MaxSteps": 30}, "MBTInit", "MBTNext")
-        beh = []
-        for j in range(3 if thorough else 1):
-            beh += ctx.tlc_simulate("prims", "ThrottlerMBT.tla", "Throttler_simgen.cfg", depth=(30000 if thorough else 9000),
-                                    seed=ctx.seed * 1000 + 100 + i * 10 + j, files={"Throttler_simgen.cfg": cfg})
+        beh = simulate(ctx, "ThrottlerMBT.tla", {"N": n, "Q": q, "NCalls": 12, "WithObs": "FALSE", "MaxSteps": 30},
+                       30000 if thorough else 9000, 100 + i * 10, 3 if thorough else 1)
         nb += len(beh)
-        ctx.absorb(ctx.run_engine(binary, "TestThrottlerReplay", {"n": n, "q": q, "behaviours": beh}), "prims", "TestThrottlerReplay")
+        absorb(ctx, ctx.run_engine(binary, "TestThrottlerReplay", {"n": n, "q": q, "behaviours": beh}), "TestThrottlerReplay")
     ctx.coverage["throttler_behaviours_replayed"] = nb
     if diverged(ctx, nv, "throttler"):
         return
     tf = os.path.join(ctx.scratch, "throttler.ndjson")
     res = ctx.run_engine(binary, "TestThrottlerConcurrent",
                          {"out": tf, "trace_rounds": 30 if thorough else 10, "monitor_rounds": 200 if thorough else 40}, timeout=1500)
-    ctx.absorb(res, "prims", "TestThrottlerConcurrent")
+    absorb(ctx, res, "TestThrottlerConcurrent")
     validate_trace(ctx, "ThrottlerTrace.tla", "ThrottlerTrace.cfg", tf, res["stats"]["rounds"], "throttler", "TestThrottlerConcurrent")
 
 
-# ------------------------------------------------------------------------------- semaphore
 def semaphore(ctx, binary):
     thorough = not ctx.quick()
-    ctx.tlc_check("prims", "Semaphore.tla", "Semaphore_quick.cfg", timeout=1200, label="Semaphore safety size=2")
-    ctx.tlc_check("prims", "Semaphore.tla", "Semaphore_size1.cfg", timeout=1200, label="Semaphore safety size=1")
-    ctx.tlc_check("prims", "Semaphore.tla", "Semaphore_live.cfg", timeout=1200, label="Semaphore liveness (fair)")
-    nv = len(ctx.violations) + len(ctx.known_hits)
+    nv = len(ctx.violations)
     nb = 0
     for i, size in enumerate([2, 1] if not thorough else [2, 1, 3]):
-        cfg = _cfg({"Size": size, "NCalls": 12, "MaxPuts": 40, "MaxSteps": 30}, "MBTInit", "MBTNext")
-        beh = []
-        for j in range(3 if thorough else 1):
-            beh += ctx.tlc_simulate("prims", "SemaphoreMBT.tla", "Semaphore_simgen.cfg", depth=(30000 if thorough else 9000),
-                                    seed=ctx.seed * 1000 + 200 + i * 10 + j, files={"Semaphore_simgen.cfg": cfg})
+        beh = simulate(ctx, "SemaphoreMBT.tla", {"Size": size, "NCalls": 12, "MaxPuts": 40, "MaxSteps": 30},
+                       30000 if thorough else 9000, 200 + i * 10, 3 if thorough else 1)
         nb += len(beh)
-        ctx.absorb(ctx.run_engine(binary, "TestSemaphoreReplay", {"size": size, "behaviours": beh}), "prims", "TestSemaphoreReplay")
+        absorb(ctx, ctx.run_engine(binary, "TestSemaphoreReplay", {"size": size, "behaviours": beh}), "TestSemaphoreReplay")
     ctx.coverage["semaphore_behaviours_replayed"] = nb
     if diverged(ctx, nv, "semaphore"):
         return
     tf = os.path.join(ctx.scratch, "semaphore.ndjson")
     res = ctx.run_engine(binary, "TestSemaphoreConcurrent",
                          {"out": tf, "trace_rounds": 30 if thorough else 10, "monitor_rounds": 100 if thorough else 20}, timeout=1500)
-    ctx.absorb(res, "prims", "TestSemaphoreConcurrent")
+    absorb(ctx, res, "TestSemaphoreConcurrent")
     validate_trace(ctx, "SemaphoreTrace.tla", "SemaphoreTrace.cfg", tf, res["stats"]["rounds"], "semaphore", "TestSemaphoreConcurrent")
 
 
-# ------------------------------------------------------------------------------- retry
 def retry(ctx, binary):
     thorough = not ctx.quick()
-    for cfg in ("Retry_quick.cfg", "Retry_nop.cfg", "Retry_zero.cfg"):
-        ctx.tlc_check("prims", "MCRetry.tla", cfg, timeout=1200, label="Retry safety " + cfg)
-    ctx.tlc_check("prims", "MCRetry.tla", "Retry_live.cfg", timeout=1200, label="Retry liveness (fair)")
-    nv = len(ctx.violations) + len(ctx.known_hits)
+    nv = len(ctx.violations)
     nb = 0
-    ladder = [10, 20, 40]  # MCRetry.MCLadder
+    ladder = [10, 20, 40]  # MCRetry.MCLadder (ticks)
     shapes = [dict(max_retries=4, min_wait=4, max_wait=20, exp=True), dict(max_retries=3, min_wait=4, max_wait=20, exp=False),
               dict(max_retries=0, min_wait=8, max_wait=4, exp=True)]
     if thorough:
@@ -184,21 +226,57 @@ def retry(ctx, binary):
     for i, sh in enumerate(shapes):
         cfg = ("CONSTANTS MaxRetries = %d MinWait = %d MaxWait = %d Exp = %s Ladder <- MCLadder NCallers = 1 MaxGets = 6 MaxSteps = 40\n"
                "INIT MBTInit\nNEXT MBTNext\nCHECK_DEADLOCK FALSE\n") % (sh["max_retries"], sh["min_wait"], sh["max_wait"], "TRUE" if sh["exp"] else "FALSE")
-        beh = []
-        for j in range(3 if thorough else 1):
-            beh += ctx.tlc_simulate("prims", "RetryMBT.tla", "Retry_simgen.cfg", depth=(24000 if thorough else 8000),
-                                    seed=ctx.seed * 1000 + 300 + i * 10 + j, files={"Retry_simgen.cfg": cfg})
+        beh = simulate(ctx, "RetryMBT.tla", None, 24000 if thorough else 8000, 300 + i * 10, 3 if thorough else 1, extra_cfg=cfg)
         nb += len(beh)
         payload = dict(sh)
         payload.update({"ladder": ladder, "behaviours": beh})
-        ctx.absorb(ctx.run_engine(binary, "TestRetryReplay", payload), "prims", "TestRetryReplay")
+        absorb(ctx, ctx.run_engine(binary, "TestRetryReplay", payload), "TestRetryReplay")
     ctx.coverage["retry_behaviours_replayed"] = nb
     if diverged(ctx, nv, "retry"):
         return
-    ctx.absorb(ctx.run_engine(binary, "TestRetryLoopback", {"rounds": 3 if thorough else 1}, timeout=900), "prims", "TestRetryLoopback")
+    absorb(ctx, ctx.run_engine(binary, "TestRetryLoopback", {"rounds": 3 if thorough else 1}, timeout=900), "TestRetryLoopback")
 
 
-PRIMS = [broadcast, throttler, semaphore, retry]
+def pipeline(ctx, binary):
+    thorough = not ctx.quick()
+    nv = len(ctx.violations)
+    nb = 0
+    shapes = [(4, 2, 2), (3, 3, 1)] if not thorough else [(4, 2, 2), (3, 3, 1), (5, 1, 3), (3, 2, 3)]
+    for i, (n, k, w) in enumerate(shapes):
+        beh = simulate(ctx, "PipelineMBT.tla", {"NItems": n, "K": k, "W": w, "FIFO": "TRUE", "MaxFails": 2, "MaxSteps": 70},
+                       40000 if thorough else 14000, 400 + i * 10, 3 if thorough else 1)
+        nb += len(beh)
+        absorb(ctx, ctx.run_engine(binary, "TestPipelineReplay", {"nitems": n, "k": k, "w": w, "behaviours": beh}), "TestPipelineReplay")
+    ctx.coverage["pipeline_behaviours_replayed"] = nb
+    if diverged(ctx, nv, "pipeline"):
+        return
+    absorb(ctx, ctx.run_engine(binary, "TestPipelineConcurrent", {"rounds": 1500 if thorough else 300}, timeout=1500), "TestPipelineConcurrent")
+
+
+def stages(ctx, binary):
+    thorough = not ctx.quick()
+    nv = len(ctx.violations)
+    # expectations: a defect listed as `known` is modelled as coded; fixed or unlisted => repaired model
+    as_coded = any(k.get("status") == "known" and vlib.key_matches(k["key"], K_STAGE_LEAK) for k in ctx.known)
+    res = ctx.run_engine(binary, "TestStagesCancelLeak", {})
+    absorb(ctx, res, "TestStagesCancelLeak")
+    if as_coded and not res.get("divergences"):
+        print("NOTE: property=G06 known finding [%s] did not reproduce on this tree" % K_STAGE_LEAK, flush=True)
+        as_coded = False
+    nb = 0
+    for i, (nin, nvals, nch) in enumerate([(2, 4, 2)] if not thorough else [(2, 4, 2), (3, 2, 1), (1, 5, 3)]):
+        beh = simulate(ctx, "StagesMBT.tla", {"NIn": nin, "NVals": nvals, "NCh": nch, "FIFO": "TRUE", "StageFix": "FALSE" if as_coded else "TRUE",
+                                              "PartA": "TRUE", "MaxSteps": 45}, 40000 if thorough else 14000, 500 + i * 10, 3 if thorough else 2)
+        nb += len(beh)
+        absorb(ctx, ctx.run_engine(binary, "TestStagesReplay", {"nin": nin, "nch": nch, "stagefix": not as_coded, "behaviours": beh}), "TestStagesReplay")
+    ctx.coverage["stages_behaviours_replayed"] = nb
+    ctx.coverage["stages_model"] = "as coded (known finding listed)" if as_coded else "repaired"
+    if diverged(ctx, nv, "stages"):
+        return
+    absorb(ctx, ctx.run_engine(binary, "TestStagesConcurrent", {"rounds": 600 if thorough else 150}, timeout=1500), "TestStagesConcurrent")
+
+
+PRIMS = {"broadcast": broadcast, "throttler": throttler, "semaphore": semaphore, "retry": retry, "pipeline": pipeline, "stages": stages}
 
 
 def run(ctx):
@@ -212,16 +290,29 @@ def run(ctx):
             with open(tf, "w") as f:
                 f.write("\n".join(tr["lines"]) + "\n")
             validate_trace(ctx, tr["module"], tr["cfg"], tf, [{"first": 1, "last": len(tr["lines"])}],
-                           rp.get("key", "replay"), rp["test"], files=tr.get("files") or None)
+                           tr["module"].replace("Trace.tla", "").lower(), rp["test"], files=tr.get("files") or None)
         else:
             ctx.absorb(ctx.run_engine(binary, rp["test"], inp), "prims", rp["test"])
         return ctx.finish("model_checking", "replay of one recorded behaviour")
-    for p in PRIMS:
-        p(ctx, binary)
+    only = [p for p in os.environ.get("VERIF_G06_ONLY", "").split(",") if p] or list(PRIMS)
+    if not os.environ.get("VERIF_MUT_SKIP_TLC"):  # development aid for mutation runs: the specs are unchanged
+        tlc_phase(ctx, only)
+    # the bindings of different primitives are independent processes: two at a time
+    with ThreadPoolExecutor(max_workers=max(1, min(3, int(os.environ.get("VERIF_G06_BIND_PAR", "2"))))) as ex:
+        for f in [ex.submit(PRIMS[name], ctx, binary) for name in only]:
+            f.result()
+    ctx.assumptions += [
+        "Go runtime: parked goroutines of a channel are served in arrival order (used only to generate replayable behaviours; "
+        "the exhaustive models allow any order); an arriving select with two ready cases picks either (never generated for replay)",
+        "semaphore: a permit is put back only for a resource that was obtained (x/sync panics otherwise)",
+        "migration/pipeline: the caller drains the last stage's outputs until closed, then calls wait() (or the last stage emits nothing)",
+        "utils/pipeline: producers stop (close their channel) after a cancellation",
+        "retry: cancelling during a request that is followed by a zero wait races with the expired timer (both branches in Retry.tla, not replayed)",
+    ]
     return ctx.finish(
         "model_checking",
-        "per primitive: exhaustive TLC (safety, liveness under fairness) on the fine-grained model; TLC-simulated "
-        "call sequences (schema-uniform, internal steps have priority so every recorded call happens at a quiescent "
-        "point) replayed on the real object in a synctest bubble with result comparison after every call; concurrent "
-        "rounds of real goroutines validated by TLC trace specs (silent linearisation steps) and by monitors that are "
-        "the specs' invariants; non-trivial = a behaviour performs at least one blocking or state-changing call")
+        "per primitive: exhaustive TLC (safety, deadlock, liveness under fairness) on the fine-grained model; TLC-simulated "
+        "call sequences (schema-uniform; internal steps have priority so every recorded call happens at a quiescent point) "
+        "replayed on the real object in a synctest bubble with comparison after every call; concurrent rounds of real "
+        "goroutines validated by TLC trace specs (silent linearisation steps) and by monitors that are the specs' invariants; "
+        "non-trivial = a behaviour performs at least one blocking or state-changing call")
